@@ -15,7 +15,9 @@ Nothing here is specific to one property.  Contents
   locks        is_std_lock_type, lock_class_info (user RAII lock classes: ctor locks, dtor unlocks),
                lock_regions(): the nodes of a function that are executed while a lock local is alive
   inlining     inline_helpers(): expand statement-level calls of same-class helper methods so that
-               "extract a helper" refactors do not change what the rules see
+               "extract a helper" refactors do not change what the rules see; inline_calls(): the same for any
+               callee a resolver finds in the TU (free helpers, function-template instantiations), early
+               returns of the callee nested away; all_functions() marks internal-linkage functions
   values       resolve_local(), const_truth(), fn_param_types()
 """
 from __future__ import annotations
@@ -208,11 +210,13 @@ def all_functions(decls, patterns=False):
     decl_nodes = {}
     pending = []
 
-    def visit(d, scope, file):
+    def visit(d, scope, file, internal=False):
         k = d.get("k")
         file = d.get("file") or d.get("nfile") or file
         if k in FUNC_KINDS:
             decl_nodes[d.get("id")] = d
+            if internal or d.get("storageClass") == "static" and k == "FunctionDecl":
+                d["internal"] = True        # internal linkage: unnamed namespace / static free function
             if cir.body(d) is not None:
                 d.setdefault("file", file)
                 q = f"{scope}::{d.get('n')}" if scope else d.get("n")
@@ -233,13 +237,13 @@ def all_functions(decls, patterns=False):
             sub = f"{scope}::{nm}" if scope else nm
             for c in cir.kids(d):
                 if c and c.get("k", "").endswith("Decl"):
-                    visit(c, sub, file)
+                    visit(c, sub, file, internal)
             return
         if k == "NamespaceDecl":
             sub = scope
             for c in cir.kids(d):
                 if c:
-                    visit(c, sub, file)
+                    visit(c, sub, file, internal or not d.get("n"))
             return
         if k in CONTAINER_KINDS:
             first_fn = True
@@ -251,7 +255,7 @@ def all_functions(decls, patterns=False):
                         first_fn = False
                         decl_nodes[c.get("id")] = c
                         continue
-                    visit(c, scope, file)
+                    visit(c, scope, file, internal)
 
     for d in decls:
         if d:
@@ -839,6 +843,163 @@ def inline_helpers(fn, kl: Klass, depth=3):
     new = {k: v for k, v in fn.items() if k != "i"}
     new["i"] = [expand(c, depth) if (c is not None and c.get("k") == "CompoundStmt") else c for c in cir.kids(fn)]
     return new, inlined
+
+
+def inline_calls(fn, resolve, pred=lambda h: True, depth=3):
+    """A copy of `fn` in which statement-level calls of functions defined in the same TU are replaced by the callee's
+    body (parameters substituted by the argument expressions): what a rule sees does not depend on whether a piece of
+    code was extracted into a helper function / function template / private method.
+
+    resolve(call) -> definition node or None; pred(definition) selects what may be expanded.  Expanded are only calls
+    whose arguments are pure, whose callee never assigns a parameter (writes *through* reference / pointer parameters
+    are fine: they are writes to the argument), and whose `return`s are all plain `return;` in tail position once
+    early returns are nested into if/else (norm.nest).  Anything else is left as a call.
+
+    Returns (new fn node, ids of the call nodes of fn itself that were expanded, [names of expanded callees])."""
+    from . import norm
+    expanded, names = set(), []
+
+    def strip_tail_returns(stmts):
+        stmts = [x for x in stmts if x is not None]
+        if not stmts:
+            return stmts
+        last = stmts[-1]
+        k = last.get("k")
+        if k == "ReturnStmt" and not [c for c in cir.kids(last) if c is not None]:
+            return stmts[:-1]
+        if k == "CompoundStmt":
+            n = dict(last)
+            n["i"] = strip_tail_returns(cir.kids(last))
+            return stmts[:-1] + [n]
+        if k == "IfStmt":
+            pre, cond, then, els = norm._if_parts(last)
+            t2 = strip_tail_returns(norm._stmts(then))
+            e2 = strip_tail_returns(norm._stmts(els)) if els is not None else []
+            return stmts[:-1] + [norm._mk_if(last, pre, cond, t2, e2)]
+        return stmts
+
+    bodies = {}
+
+    def body_of(h):
+        """helper body ready for expansion, or None"""
+        if id(h) in bodies:
+            return bodies[id(h)]
+        hb = cir.body(h)
+        out = None
+        if hb is not None:
+            if _has_return(hb):
+                try:
+                    hb2 = cir.body(norm.nest(h, fatal=False))
+                except Exception:      # a shape norm.nest does not handle: leave the call alone
+                    hb2 = None
+                if hb2 is not None:
+                    hb2 = dict(hb2)
+                    hb2["i"] = strip_tail_returns(cir.kids(hb2))
+                    if not _has_return(hb2):
+                        out = hb2
+            else:
+                out = hb
+        bodies[id(h)] = out
+        return out
+
+    def helper_of(stmt, stack):
+        s = stmt
+        while s is not None and s.get("k") == "ExprWithCleanups" and len([x for x in cir.kids(s) if x is not None]) == 1:
+            s = [x for x in cir.kids(s) if x is not None][0]
+        if s is None or s.get("k") not in ("CallExpr", "CXXMemberCallExpr"):
+            return None
+        if s.get("k") == "CXXMemberCallExpr":
+            f = cir.strip(cir.kids(s)[0])
+            if f is None or f.get("k") != "MemberExpr" or this_member(f) is None:
+                return None        # only methods called on *this keep their meaning when pasted into the caller
+        h = resolve(s)
+        if h is None or h is fn or id(h) in stack or not pred(h):
+            return None
+        hb = body_of(h)
+        if hb is None:
+            return None
+        ps = cir.params(h)
+        a = list(cir.kids(s)[1:])
+        if len(a) != len(ps):
+            return None
+        pt = {p.get("id"): (p.get("t") or "").strip() for p in ps}
+        through = set()
+        for lv, w, how in writes(hb, own=False):
+            rid = ref_id(lvalue_root(lv))
+            if rid in pt:
+                if ref_id(lv) in pt or not (pt[rid].endswith("&") or pt[rid].endswith("*") or "*" in pt[rid]):
+                    return None
+                through.add(rid)
+        for x in a:
+            if x is None or not cir.is_pure(x):
+                return None
+        # an argument the callee writes through must not share its root object with another argument: pasting the
+        # argument expressions in place of the parameters would re-read what the callee has changed
+        roots = {p.get("id"): ref_id(lvalue_root(x)) for p, x in zip(ps, a)}
+        for wp in through:
+            if roots.get(wp) is None or any(q != wp and r == roots[wp] for q, r in roots.items()):
+                return None
+        return h, hb, {p.get("id"): x for p, x in zip(ps, a)}
+
+    def expand(n, d, stack, top):
+        if n is None:
+            return None
+        if n.get("k") == "LambdaExpr":
+            return copy.deepcopy(n)
+        if n.get("k") == "CompoundStmt":
+            ks = []
+            for s in cir.kids(n):
+                h = helper_of(s, stack) if d > 0 and s is not None else None
+                if h:
+                    hfn, hb, mp = h
+                    names.append(hfn.get("n"))
+                    if top:
+                        for x in cir.walk(s):
+                            if x.get("k") in ("CallExpr", "CXXMemberCallExpr") and resolve(x) is hfn:
+                                expanded.add(id(x))
+                    body = _subst(hb, mp)
+                    body = expand(body, d - 1, stack | {id(hfn)}, False)
+                    if any(x is not None and x.get("k") == "DeclStmt" for x in cir.kids(body)):
+                        ks.append(body)           # keep the helper's scope
+                    else:
+                        ks.extend(cir.kids(body))
+                else:
+                    ks.append(expand(s, d, stack, top))
+            out = {k: v for k, v in n.items() if k != "i"}
+            out["i"] = ks
+            return out
+        out = {k: v for k, v in n.items() if k != "i"}
+        if "i" in n:
+            kids = []
+            spos = _stmt_positions(n)
+            for ci, c in enumerate(n["i"]):
+                if c is not None and d > 0 and ci in spos and \
+                        c.get("k") in ("CallExpr", "CXXMemberCallExpr", "ExprWithCleanups") and helper_of(c, stack):
+                    # single-statement branch/body: wrap in a compound so it can be expanded
+                    kids.append(expand({"k": "CompoundStmt", "line": c.get("line"), "i": [c]}, d, stack, top))
+                else:
+                    kids.append(expand(c, d, stack, top))
+            out["i"] = kids
+        return out
+
+    new = {k: v for k, v in fn.items() if k != "i"}
+    new["i"] = [expand(c, depth, frozenset(), True) if (c is not None and c.get("k") == "CompoundStmt") else c
+                for c in cir.kids(fn)]
+    return new, expanded, names
+
+
+def _stmt_positions(n):
+    """indices of the kids of a control statement that are statements (branches / loop body), not expressions"""
+    k = n.get("k")
+    c = n.get("i") or []
+    if k == "IfStmt":
+        idx = (1 if n.get("hasInit") else 0) + (1 if n.get("hasVar") else 0)
+        return set(range(idx + 1, len(c)))
+    if k in ("WhileStmt", "ForStmt", "CXXForRangeStmt"):
+        return {len(c) - 1}
+    if k == "DoStmt":
+        return {0}
+    return set()
 
 
 # ----------------------------------------------------------------------------------------------
